@@ -8,6 +8,7 @@ package vk
 
 import (
 	"bytes"
+	"context"
 	"encoding/binary"
 	"encoding/json"
 	"fmt"
@@ -412,13 +413,24 @@ func parent(spec Spec) {
 		err    error
 	}
 	runs := make([]*childRun, n)
+	// watchdog: the body polls its soft deadline; a child that is still alive long after it is hung (e.g. the code
+	// under test dead-locked inside the storage layer) and is killed: the check then reports itself broken (exit 2)
+	budget := 10 * time.Minute
+	if spec.Budget != nil {
+		budget = spec.Budget(tr)
+	}
+	if v := envInt("VERIF_BUDGET_S", 0); v > 0 {
+		budget = time.Duration(v) * time.Second
+	}
+	wctx, wcancel := context.WithTimeout(context.Background(), budget+budget/2+2*time.Minute)
+	defer wcancel()
 	shared := filepath.Join(tmp, "shared")
 	os.MkdirAll(shared, 0o755)
 	var wg sync.WaitGroup
 	for i := 0; i < n; i++ {
 		cr := &childRun{out: filepath.Join(tmp, fmt.Sprintf("shard%d.json", i))}
 		runs[i] = cr
-		cmd := exec.Command(os.Args[0], "-test.run", "^TestCheck$", "-test.timeout", "0", "-test.v=false")
+		cmd := exec.CommandContext(wctx, os.Args[0], "-test.run", "^TestCheck$", "-test.timeout", "0", "-test.v=false")
 		cmd.Env = append(os.Environ(), fmt.Sprintf("VERIF_SHARD=%d/%d", i, n), "VERIF_OUT="+cr.out, "VERIF_TIER="+tr,
 			"GOTRACEBACK=all", "VERIF_SHARED="+shared)
 		cmd.Stdout = os.Stderr
@@ -440,6 +452,11 @@ func parent(spec Spec) {
 	var crashes []Violation
 	broken := false
 	for i, cr := range runs {
+		if cr.err != nil && wctx.Err() != nil {
+			fmt.Fprintf(os.Stderr, "shard %d was killed by the watchdog after %s (soft deadline %s): the check hung\n%s\n", i, time.Since(start).Round(time.Second), budget, tailStr(cr.stderr.String(), 2000))
+			broken = true
+			continue
+		}
 		if cr.err != nil {
 			se := cr.stderr.String()
 			if m := crashRe.FindString(se); m != "" {
